@@ -7,6 +7,7 @@ import (
 	"strings"
 	"time"
 
+	"github.com/tsuna/gohbase/compression"
 	"github.com/tsuna/gohbase/hrpc"
 	"github.com/tsuna/gohbase/pb"
 	"github.com/tsuna/gohbase/region"
@@ -83,6 +84,8 @@ func c02Body(p c02Params, out *c02Obs) func() {
 	return func() {
 		*out = c02Obs{}
 		r := newRig(p.cfg)
+		comp := p.cfg.Codec != nil
+		r.srv.Compressed = comp
 		regA := region.NewInfo(1, nil, []byte("t"), []byte("t,,1"), nil, []byte("m"))
 		regB := region.NewInfo(2, nil, []byte("t"), []byte("t,m,2"), []byte("m"), nil)
 		n := len(p.calls)
@@ -111,18 +114,18 @@ func c02Body(p c02Params, out *c02Obs) func() {
 			case *pb.GetRequest:
 				row := req.GetGet().GetRow()
 				if e := excFor(row); e != nil {
-					s.Send(sim.EncodeResponse(id, nil, sim.Exc(e.GetName(), string(e.Value)), nil))
+					s.Send(sim.EncodeResponseC(id, nil, sim.Exc(e.GetName(), string(e.Value)), nil, comp))
 					return
 				}
 				cells := c02Cells(row)
-				s.Send(sim.EncodeResponse(id, &pb.GetResponse{Result: &pb.Result{AssociatedCellCount: proto.Int32(int32(len(cells)))}}, nil, cells))
+				s.Send(sim.EncodeResponseC(id, &pb.GetResponse{Result: &pb.Result{AssociatedCellCount: proto.Int32(int32(len(cells)))}}, nil, cells, comp))
 			case *pb.MutateRequest:
 				row := req.GetMutation().GetRow()
 				if e := excFor(row); e != nil {
-					s.Send(sim.EncodeResponse(id, nil, sim.Exc(e.GetName(), string(e.Value)), nil))
+					s.Send(sim.EncodeResponseC(id, nil, sim.Exc(e.GetName(), string(e.Value)), nil, comp))
 					return
 				}
-				s.Send(sim.EncodeResponse(id, &pb.MutateResponse{Processed: proto.Bool(true)}, nil, nil))
+				s.Send(sim.EncodeResponseC(id, &pb.MutateResponse{Processed: proto.Bool(true)}, nil, nil, comp))
 			case *pb.MultiRequest:
 				mr := &pb.MultiResponse{}
 				var cells []sim.KV
@@ -158,7 +161,7 @@ func c02Body(p c02Params, out *c02Obs) func() {
 					}
 					mr.RegionActionResult = append(mr.RegionActionResult, rar)
 				}
-				s.Send(sim.EncodeResponse(id, mr, nil, cells))
+				s.Send(sim.EncodeResponseC(id, mr, nil, cells, comp))
 			}
 		}
 		r.srv.OnFrame = func(s *sim.Server, f *sim.Frame) {
@@ -281,6 +284,10 @@ func c02Units(thorough bool) []*explore.Unit {
 		{"multi2+direct", []callSpec{{Kind: "get", Key: "a2"}, {Kind: "put", Key: "a1"}, {Kind: "get", Key: "z1", SkipBatch: true}}, rigCfg{QueueSize: 2}},
 		{"multi-timer", []callSpec{{Kind: "get", Key: "a1"}, {Kind: "get", Key: "z2"}}, rigCfg{QueueSize: 4, Flush: 5 * time.Millisecond}},
 	}
+	snappy := compression.New("snappy")
+	mixes = append(mixes,
+		mix{"2direct-snappy", []callSpec{{Kind: "get", Key: "a1", SkipBatch: true}, {Kind: "get", Key: "z2", SkipBatch: true}}, rigCfg{QueueSize: 1, Codec: snappy}},
+		mix{"multi2+direct-snappy", []callSpec{{Kind: "get", Key: "a2"}, {Kind: "put", Key: "a1"}, {Kind: "get", Key: "z1", SkipBatch: true}}, rigCfg{QueueSize: 2, Codec: snappy}})
 	if thorough {
 		mixes = append(mixes,
 			mix{"3direct", []callSpec{{Kind: "get", Key: "a1", SkipBatch: true}, {Kind: "get", Key: "z2", SkipBatch: true}, {Kind: "put", Key: "a2", SkipBatch: true}}, rigCfg{QueueSize: 1}},
